@@ -85,6 +85,11 @@ HEADER = ('From CF Require Import Common.Bytes Common.Digest C18.Model.\nOpen Sc
           '  (if forallb (fun s => zlist_eqb (read_case s n) r0) cs then 1 else 0) :: zlen cs :: r0.\n'
           'Definition mkp (s d f l v n : Z) (data : list Z) : cpx := mk_cpx s d f (negb (l =? 0)) v n data.\n')
 
+HEADER_U = HEADER + ('From CF Require Import C18.Uart.\n'
+                     'Definition uart_case (ops : list uop) (b : list Z) (lock : Z) : list Z :=\n'
+                     '  let \'(os, b2, l2) := uart_run ops b (negb (lock =? 0)) in\n'
+                     '  zlen b2 :: (if l2 then 1 else 0) :: flat os.\n')
+
 QFS = [0, 1, 2, 3, 4, 5, 9, 14, 15, 63]
 TARGETS = [1, 2, 3, 4]
 FUNCTIONS = [1, 2, 3, 4, 5, 14, 15]
@@ -338,10 +343,10 @@ def impl_uplink(kind, mode, a, b, data):
     return [0, len(bts)] + list(bts)
 
 
-def impl_downlink(kind, chunks, n):
+def impl_downlink(kind, chunks, n, real=None):
     """stream -> real transport -> real router (n iterations) -> real _CPXReceiveThread.run -> CRTP packets"""
     cpx, _ = _mods()
-    real = _transport(chunks)
+    real = real or _transport(chunks)
     errors = []
     with _quiet():
         st = _ScriptTransport(real, [-1] * n, lambda f: None)
@@ -374,6 +379,93 @@ def impl_downlink(kind, chunks, n):
         d = list(pk.data)
         out.append([1, pk.header, pk.port, pk.channel, len(d)] + d)
     return out, errors
+
+
+# ---- UARTTransport (serial path)
+class FakeSerial:
+    """pyserial port with timeout=None: read(n) returns exactly n bytes (here: raises when the script is exhausted)"""
+
+    def __init__(self, data):
+        self.buf, self.pos, self.written = bytes(data), 0, []
+
+    def read(self, n=1):
+        if self.pos + n > len(self.buf):
+            self.pos = len(self.buf)
+            raise EOFError('scripted port exhausted')
+        r = self.buf[self.pos:self.pos + n]
+        self.pos += n
+        return r
+
+    def write(self, d):
+        self.written.append(bytes(bytearray(d)))
+        return len(d)
+
+    def close(self):
+        pass
+
+
+def _uart(data, locked=False):
+    import threading
+    _, tr = _mods()
+    t = object.__new__(tr.UARTTransport)
+    t._serial = FakeSerial(data)
+    t._lock = threading.Lock()
+    if locked:
+        t._lock.acquire()
+    return t
+
+
+def impl_uart_run(ops, data, locked):
+    """ops: ['R'] or ['W', s, d, f, last, payload]; observations encoded like Uart.uart_run"""
+    t = _uart(data, locked)
+    outs = []
+    prev = logging.root.manager.disable
+    logging.disable(logging.CRITICAL)
+    try:
+        for op in ops:
+            nw = len(t._serial.written)
+            if op[0] == 'W':
+                if t._lock.locked():
+                    outs.append([11])           # writePacket would block in acquire()
+                    continue
+                try:
+                    with contextlib.redirect_stdout(io.StringIO()):
+                        t.writePacket(make_packet(*op[1:]))
+                    assert len(t._serial.written) == nw + 1
+                    outs.append([10] + list(t._serial.written[-1]))
+                except TypeError:
+                    outs.append([12])
+                continue
+            buf = io.StringIO()
+            try:
+                with contextlib.redirect_stdout(buf):
+                    p = t.readPacket()
+                o = [0, 0 if 'CRC error' in buf.getvalue() else 1, 0] + _enc_pkt(p)
+            except EOFError:
+                o = [1]
+            except RuntimeError as e:
+                if 'release unlocked lock' in str(e):
+                    o = [2]
+                else:
+                    o = [0, 0 if 'CRC error' in buf.getvalue() else 1, 1, 2]
+            except Exception as e:  # noqa
+                o = [0, 0 if 'CRC error' in buf.getvalue() else 1, 1, _exc_code(e)]
+            o.append(9)
+            for w in t._serial.written[nw:]:
+                o += list(w)
+            outs.append(o)
+    finally:
+        logging.disable(prev)
+    return [len(t._serial.buf) - t._serial.pos, 1 if t._lock.locked() else 0] + coqrun.flat(outs), t
+
+
+def _uart_frame_ref(s, d, f, last, ver, data, bad_crc=False):
+    w = [((s & 7) << 3) | (d & 7) | (0x40 if last else 0), (f & 0x3F) | ((ver & 3) << 6)] + list(data)
+    buff = [0xFF, len(w)] + w
+    x = 0
+    for b in buff:
+        x ^= b
+    return bytes(buff + [x ^ (0x5A if bad_crc else 0)])
 
 
 # ------------------------------------------------------------------------------------------------ case generation
@@ -499,18 +591,20 @@ def tie(ctx):
     nontriv = set()
     n_eval = 0
     samples = []
+    coqrun.make(['C18/Examples.vo', 'C18/Uart.vo'], timeout=600)      # non-vacuity examples / UART model must keep checking
 
-    def run_blocks(tag, terms, exp, descr, shard, count=None):
+    def run_blocks(tag, terms, exp, descr, shard, count=None, header=None):
         # outputs are compared through two 64-bit polynomial hashes computed inside Coq (cheap: no division);
         # for differing cases the model output is re-evaluated and shown in full
         nonlocal n_eval
         n_eval += len(terms) if count is None else count
-        bad = coqrun.compare_blocks(HEADER, ['hh (%s)' % t for t in terms], [_hh(e) for e in exp], tag=tag, shard=shard)
+        header = header or HEADER
+        bad = coqrun.compare_blocks(header, ['hh (%s)' % t for t in terms], [_hh(e) for e in exp], tag=tag, shard=shard)
         for bi, _ in bad[:4]:
             mv = None
             if len(exp[bi]) < 20000:
                 try:
-                    mv = coqrun.eval_terms(HEADER, [terms[bi]], tag=tag + 'x')[0]
+                    mv = coqrun.eval_terms(header, [terms[bi]], tag=tag + 'x')[0]
                 except coqrun.CoqError as e:
                     mv = ['model evaluation failed', str(e)[:300]]
             k = next((i for i, (x, y) in enumerate(zip(mv or [], exp[bi])) if x != y), 0) if isinstance(mv, list) else 0
@@ -693,6 +787,52 @@ def tie(ctx):
     dist['tunnel_downlink'] = n_tun
     samples.append({'uplink': tcs[0], 'impl_bytes': impl_uplink(tcs[0]['driver'], tcs[0]['mode'], tcs[0]['a'], tcs[0]['b'], tcs[0]['data'])})
 
+    # ---- G. UARTTransport (serial path): sessions of readPacket / writePacket over a scripted port
+    n_u = ctx.scale(250, 4000)
+    terms, exp, ucs = [], [], []
+    ukinds = {}
+    for i in range(n_u):
+        items = []
+        for _ in range(rng.randrange(0, 6)):
+            k = rng.choice(['frame', 'frame', 'frame', 'cts', 'noise', 'badcrc', 'badver', 'badfn', 'ff'])
+            ukinds[k] = ukinds.get(k, 0) + 1
+            pl = [rng.randrange(256) for _ in range(rng.choice([0, 1, 2, 5, 30, 31, 98, 120, 253]))]
+            sdf = (rng.choice(TARGETS), rng.choice(TARGETS), rng.choice(FUNCTIONS), rng.randrange(2))
+            if k == 'frame':
+                items.append(_uart_frame_ref(*sdf, 0, pl))
+            elif k == 'cts':
+                items.append(bytes([255, 0]))
+            elif k == 'noise':
+                items.append(bytes(rng.randrange(255) for _ in range(rng.randrange(1, 4))))
+            elif k == 'badcrc':
+                items.append(_uart_frame_ref(*sdf, 0, pl, bad_crc=True))
+            elif k == 'badver':
+                items.append(_uart_frame_ref(*sdf, rng.randrange(1, 4), pl))
+            elif k == 'badfn':
+                items.append(_uart_frame_ref(sdf[0], sdf[1], rng.choice([0, 6, 33, 63]), sdf[3], 0, pl))
+            else:
+                items.append(bytes([255]))        # a lone start byte: the next byte is taken as the size
+        data = b''.join(items)
+        if rng.random() < 0.15 and len(data) > 1:
+            data = data[:rng.randrange(1, len(data))]
+        ops = []
+        for _ in range(rng.randrange(1, len(items) + 4)):
+            if rng.random() < 0.6:
+                ops.append(['R'])
+            else:
+                ops.append(['W', rng.choice(TARGETS), rng.choice(TARGETS), rng.choice(FUNCTIONS), rng.randrange(2),
+                            [rng.randrange(256) for _ in range(rng.choice([0, 1, 3, 30, 97, 98, 99, 150]))]])
+        locked = rng.randrange(2)
+        out, _ = impl_uart_run(ops, data, locked)
+        ot = '[' + '; '.join('UR' if o[0] == 'R' else 'UW (mkp %d %d %d %d 0 %d %s)' % (o[1], o[2], o[3], o[4], len(o[5]), coqrun.zlist(o[5]))
+                             for o in ops) + ']'
+        terms.append('uart_case %s %s %d' % (ot, coqrun.zlist(data), locked))
+        exp.append(out)
+        ucs.append({'what': 'UARTTransport session differs from uart_run', 'ops': ops, 'port_bytes': list(data), 'locked': locked})
+    run_blocks('c18u', terms, exp, lambda bi: ucs[bi], 40, header=HEADER_U)
+    dist['uart_sessions'] = n_u
+    dist['uart_item_kinds'] = ukinds
+
     return {
         'evaluations': n_eval,
         'distinct_nontrivial': len(nontriv),
@@ -864,7 +1004,47 @@ def _check_decode_consistent(tf, fv):
     return None
 
 
+def _check_uart_roundtrip(s, d, f, last, data):
+    """real UART writePacket bytes == reference framing; real readPacket returns the fields and answers clear-to-send"""
+    t = _uart(b'')
+    with _quiet():
+        t.writePacket(make_packet(s, d, f, last, data))
+    w = t._serial.written
+    ref = _uart_frame_ref(s, d, f, last, 0, data)
+    if w != [ref]:
+        return {'observed': [list(x) for x in w][:2], 'expected': list(ref)}
+    t2 = _uart(bytes([17, 255, 0]) + ref + b'\x01', locked=True)
+    buf = io.StringIO()
+    with contextlib.redirect_stdout(buf):
+        p = t2.readPacket()
+    got = _key(p) + [t2._serial.written, len(t2._serial.buf) - t2._serial.pos, t2._lock.locked(), 'CRC error' in buf.getvalue()]
+    want = [s, d, f, bool(last), list(data), [bytes([255, 0])], 1, False, False]
+    if got != want:
+        return {'observed': repr(got), 'expected': repr(want)}
+    return None
+
+
+def _check_uart_tunnel(mode, a, b, data, items):
+    """SerialDriver over the real UARTTransport, both directions"""
+    hdr = (a | 12) if mode == 1 else (((a & 15) << 4) | 12 | (b & 3))
+    t = _uart(b'')
+    with _quiet():
+        drv, _, _ = _driver('serial', t)
+        drv.send_packet(_crtp(mode, a, b, data))
+    ref = _uart_frame_ref(3, 1, 3, 0, 0, [hdr] + list(data))
+    if t._serial.written != [ref]:
+        return {'observed': [list(x) for x in t._serial.written][:2], 'expected': list(ref), 'detail': 'uplink'}
+    stream = b''.join(_uart_frame_ref(s, d, 3, l, 0, [h] + list(dt)) for (s, d, l, h, dt) in items)
+    out, errors = impl_downlink('serial', None, len(items), real=_uart(stream))
+    want = [[1, h | 12, (h & 0xF0) >> 4, h & 3, len(dt)] + list(dt) for (s, d, l, h, dt) in items]
+    if out != want or errors:
+        return {'observed': out[:4], 'expected': want[:4], 'errors': [e[:200] for e in errors[:1]], 'detail': 'downlink'}
+    return None
+
+
 _CHECKS = {
+    'uart_roundtrip_changed': lambda c: _check_uart_roundtrip(*c['args']),
+    'uart_tunnel_changed': lambda c: _check_uart_tunnel(c['mode'], c['a'], c['b'], c['data'], [tuple(x) for x in c['items']]),
     'roundtrip_field_changed': lambda c: _check_roundtrip(*c['args']),
     'unsupported_version_not_rejected': lambda c: _check_version(*c['args']),
     'stream_reassembly_mismatch': lambda c: _check_stream(c['packets'], c['cuts']),
@@ -992,6 +1172,22 @@ def oracle(ctx, deep=False):
         L = sum(len(it[4]) + 5 for it in items)
         bounds = list(itertools.accumulate([0] + [len(it[4]) + 5 for it in items]))[:-1]
         chk('tunnel_downlink_changed', {'driver': kind, 'items': items, 'cuts': list(_rand_cuts(rng, L, bounds))})
+    # 6. serial path: UART framing and the tunnel over it (smallest cases first: they become the witness)
+    chk('uart_roundtrip_changed', {'args': [3, 1, 3, 0, []]})
+    chk('uart_roundtrip_changed', {'args': [4, 2, 15, 1, [255]]})
+    chk('uart_tunnel_changed', {'mode': 0, 'a': 5, 'b': 2, 'data': [], 'items': [[1, 3, 0, 0x52, []]]})
+    chk('uart_tunnel_changed', {'mode': 0, 'a': 5, 'b': 2, 'data': [7], 'items': [[1, 3, 0, 0x52, [9]], [1, 3, 1, 0xFF, [255, 0]]]})
+    for s_ in TARGETS:
+        for f_ in FUNCTIONS:
+            chk('uart_roundtrip_changed', {'args': [s_, rng.choice(TARGETS), f_, rng.randrange(2),
+                                                    [rng.randrange(256) for _ in range(rng.choice([0, 1, 2, 30, 97, 98]))]]})
+    for i in range(ctx.scale(200, 3000)):
+        mode = rng.randrange(3)
+        a = rng.randrange(256) if mode == 1 else rng.randrange(16)
+        items = [[rng.choice(TARGETS), rng.choice(TARGETS), rng.randrange(2), rng.randrange(256),
+                  [rng.randrange(256) for _ in range(rng.choice([0, 1, 2, 15, 30, 31, 64]))]] for _ in range(rng.randrange(1, 5))]
+        chk('uart_tunnel_changed', {'mode': mode, 'a': a, 'b': rng.randrange(4),
+                                    'data': [rng.randrange(256) for _ in range(rng.choice([0, 1, 2, 15, 29, 30]))], 'items': items})
     return {'evaluations': n, 'failures': fails, 'distinct_nontrivial': 0,
             'rule': 'property text on the real code: field-wise round trip (all 4x4x7x2 combinations), versions 1..3 rejected, '
                     'all 65 536 header pairs decode consistently, real writePacket bytes == reference wire format and are '
